@@ -15,6 +15,8 @@ from fakes import c10_retry as drv
 
 ID = 'C10'
 PROPERTY_FILE = 'C10/Property.v'
+PROPERTY_FILES = ['C10/Property.v', 'C10/Property_drivers.v']
+PROPERTY_FILES_NO_GEN = ['C10/Property.v']      # still checked when the driver-flag translator fails closed
 LEVEL = 'proof'
 ALLOWED_AXIOMS = ()
 TRUSTED_BASE = [
@@ -108,22 +110,6 @@ def extract_driver_flags(repo):
     if [(x[0], x[1], x[2]) for x in a] != [('UsbDriver', '__init__', 'self.needs_resending')]:
         raise ValueError('usbdriver.py: assignments to needs_resending: %r' % [(x[0], x[1], x[2]) for x in a])
     usb = _const_bool(a[0][3], 'UsbDriver.__init__')
-    a = _assignments(trees['radiodriver'], 'needs_resending')
-    shape = [(x[0], x[1], x[2]) for x in a]
-    if shape != [('RadioDriver', '__init__', 'self.needs_resending'), ('_RadioDriverThread', 'run', 'self._link.needs_resending')]:
-        raise ValueError('radiodriver.py: assignments to needs_resending: %r' % shape)
-    radio0 = _const_bool(a[0][3], 'RadioDriver.__init__')
-    v = a[1][3]
-    if a[1][4] and any(isinstance(n, (ast.If, ast.For, ast.While, ast.Try, ast.With)) for n in a[1][4][2:]):
-        raise ValueError('radiodriver.py: the assignment in _RadioDriverThread.run is conditional')
-    if isinstance(v, ast.UnaryOp) and isinstance(v.op, ast.Not) and ast.unparse(v.operand) == 'self._has_safelink':
-        after = 'negb safelink'
-    elif isinstance(v, ast.Attribute) and ast.unparse(v) == 'self._has_safelink':
-        after = 'safelink'
-    elif isinstance(v, ast.Constant) and isinstance(v.value, bool):
-        after = 'true' if v.value else 'false'
-    else:
-        raise ValueError('radiodriver.py: unrecognised value %s' % ast.unparse(v))
     # _has_safelink: False in __init__, True only under the test of the safelink reply (0xff, 0x05, 0x01)
     h = _assignments(trees['radiodriver'], '_has_safelink')
     hs = [(x[0], x[1], x[2]) for x in h]
@@ -134,6 +120,35 @@ def extract_driver_flags(repo):
     guards = [n for n in h[1][4] if isinstance(n, ast.If)]
     if not guards or '(255, 5, 1)' not in ast.unparse(guards[-1].test).replace('0xff', '255').replace('0x05', '5').replace('0x01', '1'):
         raise ValueError('radiodriver.py: _has_safelink = True is not guarded by the safelink confirmation test')
+    confirm_if = guards[-1]
+    a = _assignments(trees['radiodriver'], 'needs_resending')
+    if not a or (a[0][0], a[0][1], a[0][2]) != ('RadioDriver', '__init__', 'self.needs_resending'):
+        raise ValueError('radiodriver.py: RadioDriver.__init__ does not set needs_resending first: %r' % [(x[0], x[1], x[2]) for x in a])
+    radio0 = _const_bool(a[0][3], 'RadioDriver.__init__')
+    # what _RadioDriverThread.run leaves in link.needs_resending after a start-up, as a function of the value before
+    # (`prev`) and of whether the handshake was confirmed (`safelink`)
+    after = 'prev'
+    for (cls, fn, tgt, v, stack) in a[1:]:
+        if (cls, fn, tgt) != ('_RadioDriverThread', 'run', 'self._link.needs_resending'):
+            raise ValueError('radiodriver.py: unexpected assignment to needs_resending in %s.%s (%s)' % (cls, fn, tgt))
+        inner = [n for n in stack[2:] if isinstance(n, (ast.If, ast.For, ast.While, ast.Try, ast.With))]
+        if isinstance(v, ast.UnaryOp) and isinstance(v.op, ast.Not) and ast.unparse(v.operand) == 'self._has_safelink':
+            val = 'negb safelink'
+        elif isinstance(v, ast.Attribute) and ast.unparse(v) == 'self._has_safelink':
+            val = 'safelink'
+        elif isinstance(v, ast.Constant) and isinstance(v.value, bool):
+            val = 'true' if v.value else 'false'
+        else:
+            raise ValueError('radiodriver.py: unrecognised value %s' % ast.unparse(v))
+        if not inner:
+            after = val                                   # unconditional, after the handshake loop
+        elif inner[-1] is confirm_if and all(isinstance(n, (ast.For, ast.If)) for n in inner) and \
+                sum(isinstance(n, ast.If) for n in inner) == 1 and val in ('true', 'false'):
+            after = '(if safelink then %s else %s)' % (val, after)      # only when the handshake is confirmed
+        else:
+            raise ValueError('radiodriver.py: assignment to needs_resending under an unrecognised condition (line %d)' % v.lineno)
+    if len(a) > 3:
+        raise ValueError('radiodriver.py: too many assignments to needs_resending')
     # the link object the thread writes to must be the driver itself
     if '_RadioDriverThread(' not in src['radiodriver']:
         raise ValueError('radiodriver.py: thread construction not found')
@@ -148,7 +163,8 @@ def generate(ctx):
             'Definition drv_usb_nr : bool := %s.            (* UsbDriver.__init__ *)\n'
             'Definition drv_radio_initial_nr : bool := %s.  (* RadioDriver.__init__ *)\n'
             '(* _RadioDriverThread.run, once the safelink negotiation (up to 10 tries) is over *)\n'
-            'Definition drv_radio_nr_after (safelink : bool) : bool := %s.\n'
+            '(* prev = the flag before this start-up (connect, or restart after pause) *)\n'
+            'Definition drv_radio_nr_after (prev safelink : bool) : bool := %s.\n'
             % (b(fl['default']), b(fl['usb']), b(fl['radio_initial']), fl['radio_after']))
     path = os.path.join(coqrun.COQ_DIR, 'C10', 'Gen_Drivers.v')
     old = open(path).read() if os.path.exists(path) else None
